@@ -557,7 +557,107 @@ func (c *Ctx) pubsubChurn(kind int, endByCtx, share bool) {
 	rc.stop()
 }
 
+// pubsubOrphan: a Receive whose (P|S)SUBSCRIBE fails while the connection stays usable (error reply
+// from the server, or a context that is already done) must leave nothing registered: afterwards more
+// messages than a subscription buffer holds (16) are published on that channel for another, live
+// Receive; the connection must keep serving: the live Receive gets them all, a regular command
+// returns, a new Receive can subscribe.
+func (c *Ctx) pubsubOrphan(kind int, how string) {
+	bg := context.Background()
+	srv := fakeredis.New(fakeredis.Options{})
+	mk := func(o rueidis.ClientOption) rueidis.Client {
+		o.InitAddress, o.DialCtxFn, o.ForceSingleClient, o.PipelineMultiplex, o.DisableRetry = []string{"fake:1"}, srv.Dial, true, -1, true
+		cl, err := rueidis.NewClient(o)
+		if err != nil {
+			panic(err)
+		}
+		return cl
+	}
+	a, b := mk(rueidis.ClientOption{}), mk(rueidis.ClientOption{DisableCache: true})
+	name, target := "orph", "orph"
+	if kind == 1 {
+		name, target = "orph*", "orpha"
+	}
+	verb := []string{"SUBSCRIBE", "PSUBSCRIBE", "SSUBSCRIBE"}[kind]
+	sub := func(ch string) rueidis.Completed {
+		switch kind {
+		case 0:
+			return a.B().Subscribe().Channel(ch).Build()
+		case 1:
+			return a.B().Psubscribe().Pattern(ch).Build()
+		}
+		return a.B().Ssubscribe().Channel(ch).Build()
+	}
+	op := fmt.Sprintf("orphan kind=%d how=%s", kind, how)
+	a.Do(bg, a.B().Ping().Build())
+	var ferr error
+	switch how {
+	case "errreply":
+		srv.AddRule(fakeredis.Rule{Match: fakeredis.Cmd(verb, name), Times: 1, Err: "NOPERM this user has no permissions to access one of the channels used as arguments"})
+		ferr = a.Receive(bg, sub(name), func(rueidis.PubSubMessage) {})
+	case "ctxdone":
+		ctx, cancel := context.WithCancel(bg)
+		cancel()
+		ferr = a.Receive(ctx, sub(name), func(rueidis.PubSubMessage) {})
+	}
+	if ferr == nil {
+		c.Fail("pubsub:failed-subscribe-returned-nil", op, "Receive returned nil although its subscribe command failed")
+	}
+	live := startRecv(a, kind, []string{name})
+	const n = 24
+	for i := 0; i < n; i++ {
+		if kind == 2 {
+			b.Do(bg, b.B().Spublish().Channel(target).Message(fmt.Sprint("o", i)).Build())
+		} else {
+			b.Do(bg, b.B().Publish().Channel(target).Message(fmt.Sprint("o", i)).Build())
+		}
+	}
+	tctx, cancel := context.WithTimeout(bg, 2*time.Second)
+	_, cerr := a.Do(tctx, a.B().Incr().Key("after").Build()).AsInt64()
+	cancel()
+	cmd := "ok"
+	if cerr != nil {
+		cmd = "hangs(" + cerr.Error() + ")"
+	}
+	for dl := time.Now().Add(2 * time.Second); time.Now().Before(dl) && cerr == nil; time.Sleep(100 * time.Microsecond) {
+		live.mu.Lock()
+		k := len(live.got)
+		live.mu.Unlock()
+		if k >= n {
+			break
+		}
+	}
+	live.mu.Lock()
+	got := len(live.got)
+	live.mu.Unlock()
+	newrecv := "ok"
+	if cerr == nil {
+		nr := startRecv(a, kind, []string{"other" + name})
+		nr.mu.Lock()
+		if nr.conf < 1 {
+			newrecv = "not-confirmed"
+		}
+		nr.mu.Unlock()
+		nr.stop()
+	} else {
+		newrecv = "skipped"
+	}
+	ans := fmt.Sprintf("cmd=%s msgs=%d newrecv=%s", cmd, got, newrecv)
+	c.Emit("!"+op, ans, true)
+	if cmd != "ok" || got != n || newrecv != "ok" {
+		c.Fail("pubsub:orphan-subscription-after-failed-receive", op, fmt.Sprintf("after a Receive whose %s failed (%v) and %d messages on that channel: %s (the live Receive must get all %d, a regular command must return, a new Receive must subscribe)", verb, ferr, n, ans, n))
+	}
+	c.Hit("orphan:" + how)
+	live.stop()
+	go func() { a.Close(); b.Close(); srv.Close() }() // Close may block behind a stuck reader: do not wait for it
+}
+
 func (c *Ctx) pubsubE2E() {
+	for kind := 0; kind < 3; kind++ {
+		for _, how := range []string{"errreply", "ctxdone"} {
+			c.pubsubOrphan(kind, how)
+		}
+	}
 	for kind := 0; kind < 3; kind++ {
 		for _, endByCtx := range []bool{true, false} {
 			for _, share := range []bool{false, true} {
